@@ -114,7 +114,7 @@ type ContractSet struct {
 
 var clauseKW = map[string]bool{"func": true, "countstores": true, "implements": true, "preserves": true, "ginv": true, "decreases": true, "assumes": true, "requires": true, "ensures": true, "onpanic": true, "modifies": true, "panics": true,
 	"loop": true, "spec": true, "axiom": true, "typed": true, "trusted": true, "pure": true, "effects": true,
-	"ufun": true, "smtaxiom": true, "rec": true, "signature": true, "records": true, "maporder": true, "sortkey_injective": true, "guarded_global": true, "guarded_by": true, "deterministic": true, "recursion": true, "immutable": true, "pkg": true, "dominates": true, "tags": true}
+	"ufun": true, "smtaxiom": true, "rec": true, "signature": true, "records": true, "maporder": true, "sortkey_injective": true, "guarded_global": true, "guarded_by": true, "deterministic": true, "recursion": true, "statefields": true, "immutable": true, "pkg": true, "dominates": true, "tags": true}
 
 var tagRe = regexp.MustCompile(`^@(C[0-9]{2,3}|pinned)$`)
 var labelRe = regexp.MustCompile(`^([A-Za-z_][A-Za-z0-9_.\-]*):$`)
